@@ -390,7 +390,7 @@ class FoldSystem(System):
     def cases(self):
         for q in ("", "'", '"'):
             for w1 in WS:
-                for br in ("\n", "\n\n"):
+                for br in ("\n", "\n\n", "\n \n", "\n\n \n", "\n  \n\n", "\n\n\n"):
                     for ind in (" ", "  "):
                         for w2 in WS:
                             base = f"k: {q}a{w1}{br}{ind}{w2}b"
@@ -406,6 +406,8 @@ class FoldSystem(System):
                         yield f"k: {h}\n  a{w1}\n  {w2}b{w3}\n"
                         yield f"k: {h}\n  a{w1}\n\n   {w2}b\n  c{w3}"
                         yield f"k: {h}{w1}\n  a\n{w2}\n  b"
+                        yield f"k: {h}\n a\n   {w1}\n b{w3}\n"
+                        yield f"k: {h}\n a\n  {w1}\n\n    {w2}\n b\n"
 
     def run(self, case):
         return check_text(case, True)
